@@ -10,6 +10,7 @@ from . import build
 from .proto import Case, parse_output
 
 WORK = os.path.join(build.VERIF, ".work")
+MODELLED_KINDS = {"kzg10", "c16"}   # case kinds for which the extracted model must answer
 
 
 def _run_to_text(cmd, timeout, env=None, input=None):
@@ -103,6 +104,8 @@ class Engine:
             if "runner_exception" in mo:
                 diffs.append({"case": c.id, "name": "runner_exception", "lib": "", "model": " ".join(mo["runner_exception"][1])})
             names = list(mo.keys())   # the model decides what is compared; it emits every observable it predicts
+            if not names and c.kind in MODELLED_KINDS and not c.meta.get("model_silent_ok"):
+                diffs.append({"case": c.id, "name": "model_silent", "lib": "", "model": "<the extracted model emitted nothing for a modelled kind>"})
             for name in names:
                 if name in ("harness_panic", "runner_exception"):
                     continue
